@@ -199,6 +199,12 @@ def check(case):
             raise
         except BaseException as e:
             exc = e
+        # the counters are live: read while the iterator is still suspended they already show what was fetched
+        if exc is None and not multi and not m.iter_taint:
+            live = W.hit_count[0] - W.hit_count[1]
+            if live != len(got) and not (live == len(got) + 1 and len(got) < k):
+                raise Violation('root-count-not-live', f'{desc}\nwith the iterator still alive after {len(got)} '
+                                                       f'examples the root node reports hit_count {W.hit_count}')
         it.close()
         want, want_exc = observe.expected_stream(m.vals)
         if not m.unordered and not observe.same_list(got, want[:len(got)]):
